@@ -285,6 +285,17 @@ class PurityMonitor:
     def _wrap(self, name, fn, is_method):
         mon = self
         import functools
+        import inspect
+        inplace_pos, inplace_default = None, True
+        try:
+            params = list(inspect.signature(fn).parameters.values())
+            names = [p_.name for p_ in params]
+            if "inplace" in names:
+                inplace_pos = names.index("inplace") - (1 if is_method else 0)
+                d = params[names.index("inplace")].default
+                inplace_default = True if d is inspect._empty else d
+        except (TypeError, ValueError):
+            pass
 
         @functools.wraps(fn)
         def wrapper(*args, **kwargs):
@@ -292,7 +303,19 @@ class PurityMonitor:
                 return fn(*args, **kwargs)
             slf = args[0] if is_method and args else None
             rest = args[1:] if is_method and args else args
-            items = mon._state(slf, rest, kwargs)
+            if slf is not None and inplace_pos is not None:
+                # methods with an `inplace` switch mutate `self` by contract unless inplace=False is requested
+                ip = kwargs.get("inplace", rest[inplace_pos] if len(rest) > inplace_pos else inplace_default)
+                if ip:
+                    slf_for_state = None
+                else:
+                    slf_for_state = slf
+            else:
+                slf_for_state = slf
+            items = mon._state(slf_for_state, rest, kwargs)
+            if slf is not None and slf_for_state is None:
+                # an argument that IS self (f.product(f)) shares self's licence to change
+                items = [(n, o) for (n, o) in items if o is not slf]
             before = [(n, fingerprint(o)) for n, o in items]
             mon.depth += 1
             try:
